@@ -298,6 +298,17 @@ class Interp:
     def native_error(self, e, node):
         if getattr(e, '_ttsa_analysis', False):
             return AnalysisError(str(e))
+        # an exception thrown from inside a transfer function / domain class is a defect of the checker, not of the analysed program
+        tb = e.__traceback__
+        last = None
+        while tb is not None:
+            last = tb
+            tb = tb.tb_next
+        if last is not None:
+            fname = last.tb_frame.f_code.co_filename
+            if '/ttsa/' in fname and not fname.endswith('interp.py'):
+                import traceback
+                return AnalysisError(f'internal error in the abstract domain ({type(e).__name__}: {e}) at {fname}:{last.tb_lineno} while analysing {self.where()}')
         r = Raised(type(e).__name__, str(e), node or self.cur_node(), self.cur_fn())
         r.where = self.where()
         r.path = self.call_path()
